@@ -34,6 +34,18 @@ def cover(label):
     return True
 
 
+ACTIVE_KNOWN = set()
+
+
+def known(tag, cond):
+    """the harness reached a state that a listed, still-reproducing known finding describes (tag): leave it out of
+    the claim (the path is ignored).  Not active during replay, so the witness of the finding still fails."""
+    if tag in ACTIVE_KNOWN and cond:
+        from crosshair.util import IgnoreAttempt
+        raise IgnoreAttempt('known finding ' + tag)
+    return True
+
+
 def assume(cond):
     from crosshair.util import IgnoreAttempt
     if not cond:
